@@ -314,53 +314,58 @@ def run(tier):
     rep.floor("fields classified", nfields, 30)
     loader_anchor_isolation(rep, F)
     block_scalar_stops_at_marker(rep, F)
+    from . import markers
+    rep.floor("document marker tests in the scanner", markers.check(rep, F), 4)
     return rep
 
 
 def block_scalar_stops_at_marker(rep, F):
-    """A document-end marker line ends a top-level block scalar (otherwise `A ... B` swallows B into A's last scalar): in
-    scan_block_scalar every path from the function entry to the call that reads a content line passes the test for a document marker,
-    or leaves the test's controlling condition (content indentation 0) on its other edge."""
+    """A document marker line (`...` as well as `---`) ends a top-level block scalar (otherwise `A ... B` swallows B into A's last
+    scalar, and a following `--- B` becomes scalar text): in scan_block_scalar every path from the function entry to the call that
+    reads a content line passes a test for that marker, or leaves the test's controlling condition (content indentation 0) on its
+    other edge.  Checked once per marker."""
     f = F.fn(SCANNER + "::scan_block_scalar")
     cl = [bb for bb, t, ck, fr in f.calls() if ck and ck.endswith("Scanner::scan_block_scalar_content_line")]
-    de = [bb for bb, t, ck, fr in f.calls() if fr and fr.get("trait") == INPUT and fr["name"] in ("next_is_document_end", "next_is_document_indicator")]
-    if not cl or not de:
-        rep.check(False, "block-scalar-stops-at-marker", "scan_block_scalar", "scan_block_scalar no longer tests for a document marker before reading a content line "
-                  "(content-line calls: %d, marker tests: %d)" % (len(cl), len(de)), site=f.span)
-        return
-    D = f.dominators()
-    forbidden = set()
-    for d in de:
-        # nearest switch that decides whether the marker test runs
-        doms = sorted([x for x in D.get(d, ()) if x != d and f.blocks[x]["term"]["k"] == "switch"], key=lambda x: -len(D.get(x, ())))
-        for sw in doms:
-            succs = f.succs(sw)
-            on = [sx for sx in succs if cfg.dominated_by_edge(f, d, sw, sx)]
-            if len(on) == 1 and len(set(succs)) == 2:
-                forbidden |= {(sw, sx) for sx in succs if sx != on[0]}
-                break
-    seen, st, path = {0}, [0], {0: None}
-    hit = None
-    while st and hit is None:
-        b = st.pop()
-        if f.blocks[b]["cleanup"] or b in de:
+    for marker, names, inst in (("...", ("next_is_document_end", "next_is_document_indicator"), "scan_block_scalar"),
+                                ("---", ("next_is_document_start", "next_is_document_indicator"), "scan_block_scalar:document-start")):
+        de = [bb for bb, t, ck, fr in f.calls() if fr and fr.get("trait") == INPUT and fr["name"] in names]
+        if not cl or not de:
+            rep.check(False, "block-scalar-stops-at-marker", inst, "scan_block_scalar does not test for the document marker `%s` before reading a content line "
+                      "(content-line calls: %d, marker tests: %d): the marker line and everything after it become scalar text" % (marker, len(cl), len(de)), site=f.span)
             continue
-        for sx in f.succs(b):
-            if (b, sx) in forbidden or sx in seen:
+        D = f.dominators()
+        forbidden = set()
+        for d in de:
+            # nearest switch that decides whether the marker test runs
+            doms = sorted([x for x in D.get(d, ()) if x != d and f.blocks[x]["term"]["k"] == "switch"], key=lambda x: -len(D.get(x, ())))
+            for sw in doms:
+                succs = f.succs(sw)
+                on = [sx for sx in succs if cfg.dominated_by_edge(f, d, sw, sx)]
+                if len(on) == 1 and len(set(succs)) == 2:
+                    forbidden |= {(sw, sx) for sx in succs if sx != on[0]}
+                    break
+        seen, st, path = {0}, [0], {0: None}
+        hit = None
+        while st and hit is None:
+            b = st.pop()
+            if f.blocks[b]["cleanup"] or b in de:
                 continue
-            seen.add(sx)
-            path[sx] = b
-            if sx in cl:
-                hit = sx
-                break
-            st.append(sx)
-    pth = []
-    x = hit
-    while x is not None:
-        pth.append(x)
-        x = path[x]
-    rep.check(hit is None, "block-scalar-stops-at-marker", "scan_block_scalar", "a content line of a block scalar at indentation 0 can be read without the line having been "
-              "tested for a document marker (`...`): the marker and everything after it become scalar text", site=f.span, detail={"path": pth[::-1]})
+            for sx in f.succs(b):
+                if (b, sx) in forbidden or sx in seen:
+                    continue
+                seen.add(sx)
+                path[sx] = b
+                if sx in cl:
+                    hit = sx
+                    break
+                st.append(sx)
+        pth = []
+        x = hit
+        while x is not None:
+            pth.append(x)
+            x = path[x]
+        rep.check(hit is None, "block-scalar-stops-at-marker", inst, "a content line of a block scalar at indentation 0 can be read without the line having been "
+                  "tested for a document marker (`%s`): the marker and everything after it become scalar text" % marker, site=f.span, detail={"path": pth[::-1]})
 
 
 def loader_anchor_isolation(rep, F):
